@@ -78,7 +78,15 @@ pub(crate) fn leading_whitespace(value: u64) -> u32 {
     let mask2 = repeat_byte(b'\n');
     let res1 = value ^ mask1;
     let res2 = value ^ mask2;
-    (res1 & res2).trailing_zeros() >> 3
+
+    // Mark every non-zero byte with its high bit so that only a byte equal to
+    // one of the masks counts as whitespace (`res1 & res2` alone is also zero
+    // for neighbouring bytes such as 0x08 and 0x0b).
+    let lo7 = repeat_byte(0x7f);
+    let hi = repeat_byte(0x80);
+    let nonzero1 = (((res1 & lo7) + lo7) | res1) & hi;
+    let nonzero2 = (((res2 & lo7) + lo7) | res2) & hi;
+    (nonzero1 & nonzero2).trailing_zeros() >> 3
 }
 
 #[cfg(test)]
